@@ -1821,11 +1821,22 @@ package spec
 //@ ext (*bytes.Buffer).Bytes
 //@   params b
 //@   assigns nothing
-//@   ensures result != nil && gobOf(result) == gobVal[b] && gobWF(result)
+//@   ensures result != nil && gobOf(result) == gobVal[b] && gobWF(result) && textOf(result) == bufText[b]
 //@ ext bytes.NewBuffer
 //@   params buf
-//@   assigns ghost(gobVal)
-//@   ensures freshObj(result) && gobVal == upd(old(gobVal), result, gobOf(buf))
+//@   assigns ghost(gobVal, bufText)
+//@   ensures freshObj(result) && gobVal == upd(old(gobVal), result, gobOf(buf)) && bufText == upd(old(bufText), result, (buf == nil ? "" : textOf(buf)))
+// the text a buffer holds (what was written to it, in order)
+//@ ghost bufText smt:(Array Int String)
+//@ specfn textOf([]byte) string
+//@ ext (*bytes.Buffer).WriteString
+//@   params b, s
+//@   assigns ghost(bufText)
+//@   ensures result1 == nil && result0 == len(s) && bufText == upd(old(bufText), b, old(bufText)[b] + s)
+//@ ext (*bytes.Buffer).Write
+//@   params b, p
+//@   assigns ghost(bufText)
+//@   ensures result1 == nil && result0 == len(p) && bufText == upd(old(bufText), b, old(bufText)[b] + textOf(p))
 //@ ext encoding/gob.NewDecoder
 //@   params r
 //@   assigns nothing
@@ -1931,3 +1942,16 @@ package spec
 //@   requires forall k string :: oCnt(jv(data), k) > 0 ==> knownKey("XMLObject", k)
 //@   ensures  [C01,C19] lossless @@ result != nil ==> sameObject(jv(result), jv(data))
 //@   ensures  [C06] no-duplicate-members @@ result != nil ==> (forall k string :: oCnt(jv(result), k) <= 1)
+
+// ---- the hand-written object encoder of ordered schema properties (C06, C01): its text, member by member
+// jsonQuote(s): the JSON string literal encoding/json writes for s (quotes, escapes); a name without quote, backslash,
+// control or non-ASCII character is quoted by putting it between quotes
+//@ specfn jsonQuote(string) string
+//@ axiom forall s string :: triggers(encTextOf(s)) && encTextOf(s) == jsonQuote(s)
+//@ define rec objText(items OrderSchemaItems, n int) string = n <= 0 ? "{" : objText(items, n-1) + (n-1 > 0 ? "," : "") + jsonQuote(items[n-1].Name) + ":" + encTextOf(items[n-1].Schema)
+
+//@ func (OrderSchemaItems).MarshalJSON
+//@   property C06, C01
+//@   assigns  ghost(bufText, gobVal)
+//@   ensures  [C06,C01] names-quoted @@ result1 == nil ==> textOf(result0) == objText(items, len(items)) + "}"
+//@   loop 0 invariant 0 <= $i0 && $i0 <= len(items) && buf != nil && bufText[buf] == objText(items, $i0)
